@@ -254,6 +254,15 @@ func c14normPkg(c *core.Ctx, R, rel string) {
 							check(fn, x, x.Y, core.ExprStr(x.X))
 						}
 					}
+				case *ast.IndexExpr:
+					// a lookup in a table keyed by names: map[string]... held in a package-level variable
+					if t := core.TypeOf(pk, x.X); t != nil {
+						if mt, isMap := t.Underlying().(*types.Map); isMap && isStringType(mt.Key()) {
+							if id, isID := ast.Unparen(x.X).(*ast.Ident); isID && core.PkgVarInit(pk, id.Name) != nil {
+								check(fn, x, x.Index, "the keys of "+id.Name)
+							}
+						}
+					}
 				case *ast.SwitchStmt:
 					if x.Tag != nil {
 						hasConst := false
